@@ -106,6 +106,28 @@ contains
   end subroutine asub
 end module alib3
 """,
+    # a procedure with a page of its own (alib6) named like an interface body that lives on a generic interface's page (alib5)
+    "src/alib5.f90": """module alib5
+  !! fifth library module
+  implicit none
+  interface unit_length
+    !! generic made of an interface body
+    subroutine scale_it(v)
+      !! scale_it, the external procedure described by an interface body of alib5
+      real :: v
+    end subroutine scale_it
+  end interface unit_length
+end module alib5
+module alib6
+  !! sixth library module
+  implicit none
+contains
+  subroutine scale_it(w)
+    !! scale_it of alib6
+    integer :: w
+  end subroutine scale_it
+end module alib6
+""",
     # a module that re-exports entities of the first under new names
     "src/alib4.f90": """module alib4
   !! fourth library module
@@ -117,9 +139,11 @@ end module alib4
 A_PUBLIC = {"alib": {"pub_procs": {"asub", "afun", "agen", "area"}, "pub_types": {"shape_t"}, "pub_vars": {"avar"}, "pub_absints": {"aabs"}},
             "alib2": {"pub_procs": {"asub", "afun", "agen", "area", "second_sub"}, "pub_types": {"shape_t"}, "pub_vars": {"avar", "second_var"}, "pub_absints": {"aabs"}},
             "alib3": {"pub_procs": {"asub"}, "pub_types": {"shape_t"}, "pub_vars": set(), "pub_absints": set()},
-            "alib4": {"pub_procs": {"api_sub"}, "pub_types": {"packet"}, "pub_vars": set(), "pub_absints": set()}}
+            "alib4": {"pub_procs": {"api_sub"}, "pub_types": {"packet"}, "pub_vars": set(), "pub_absints": set()},
+            "alib5": {"pub_procs": {"unit_length", "scale_it"}, "pub_types": set(), "pub_vars": set(), "pub_absints": set()},
+            "alib6": {"pub_procs": {"scale_it"}, "pub_types": set(), "pub_vars": set(), "pub_absints": set()}}
 # text found only on the page of A that documents (module, entity)
-A_MARK = {("alib", "shape_t"): "public type", ("alib3", "shape_t"): "another shape_t of alib3", ("alib", "asub"): "public subroutine", ("alib3", "asub"): "another asub of alib3"}
+A_MARK = {("alib6", "scale_it"): "scale_it of alib6", ("alib", "shape_t"): "public type", ("alib3", "shape_t"): "another shape_t of alib3", ("alib", "asub"): "public subroutine", ("alib3", "asub"): "another asub of alib3"}
 
 B3_SRC = """module bmod3
   !! B's second module uses the third library module {refs3}
@@ -133,6 +157,13 @@ contains
     call asub(1.0)
   end subroutine bsub3
 end module bmod3
+module bmod7
+  !! a procedure pointer whose interface is a procedure of the library
+  use alib6
+  implicit none
+  procedure(scale_it), pointer :: pp7
+  !! points at something like scale_it
+end module bmod7
 module bmod5
   !! uses entities the library re-exports under new names
   use alib4
@@ -414,7 +445,7 @@ def run_history(st: Stats, case):
                 st.violation("external-link-does-not-resolve-in-A", stratum, dict(feats, entity=name, problem=prob.split(" ")[0]), inp, dict(page=page, href=url, problem=prob), "a page of A documenting the entity")
         if damage is None:
             # which of A's same-named entities a page of B links to: the one of the module that page's scope uses
-            WANT = {"module/bmod5.html": ("alib", "shape_t"), "type/b5_t.html": ("alib", "shape_t"), "module/bmod3.html": ("alib3", "shape_t"), "module/bmod.html": ("alib", "shape_t"), "interface/cb.html": ("alib", "shape_t"), "interface/gcb.html": ("alib", "shape_t"),
+            WANT = {"module/bmod7.html": ("alib6", "scale_it"), "module/bmod5.html": ("alib", "shape_t"), "type/b5_t.html": ("alib", "shape_t"), "module/bmod3.html": ("alib3", "shape_t"), "module/bmod.html": ("alib", "shape_t"), "interface/cb.html": ("alib", "shape_t"), "interface/gcb.html": ("alib", "shape_t"),
                     "interface/acb.html": ("alib", "shape_t"), "interface/mk.html": ("alib", "shape_t")}
             if clash == "module":
                 WANT = {"module/bmod3.html": ("alib3", "shape_t")}
